@@ -281,10 +281,40 @@ def r7(p, rep):
 UNICODE_DIGIT_TESTS = {"isdigit": "accepts superscripts and other Unicode digits that int() rejects", "isnumeric": "accepts fractions, Roman numerals etc. that int() rejects"}
 
 
+def _regex_receivers(p, m, recv, f):
+    """module-level compiled regexes a `.fullmatch` / `.match` receiver may denote: the name itself, or - for a field of
+    a small record class (`self.pattern`) - the regexes its constructions in this module pass for that field"""
+    if isinstance(recv, ast.Name):
+        return [recv.id]
+    if isinstance(recv, ast.Attribute) and isinstance(recv.value, ast.Name):
+        out = []
+        for c in p.classes.values():
+            if c.module is not m:
+                continue
+            init = c.methods.get("__init__")
+            if init is None:
+                continue
+            for a in ast.walk(init.node):
+                if isinstance(a, ast.Assign) and isinstance(a.value, ast.Name) and a.value.id in init.params[1:] and any(isinstance(t, ast.Attribute) and t.attr == recv.attr for t in a.targets):
+                    idx = init.params.index(a.value.id) - 1
+                    for call in ast.walk(m.tree):
+                        if isinstance(call, ast.Call) and resolve_callee(p, call, m) == ("class", c):
+                            v = call.args[idx] if idx < len(call.args) else common.kwarg(call, a.value.id)
+                            if isinstance(v, ast.Name):
+                                out.append(v.id)
+        return out
+    return []
+
+
 def r8(p, rep):
     rep.rule("C12.R8", "number tokens are recognised by a test that agrees with int()", "contradiction lint (guard vs conversion)", floor=2)
     m = p.module("namedtensor.stage1.parse")
     n = 0
+
+    def pattern_of(name):
+        vals = p.module_var(m, name)
+        return next((c.value for v in vals for c in ast.walk(v) if isinstance(c, ast.Constant) and isinstance(c.value, str)), None)
+
     for node in ast.walk(m.tree):
         if isinstance(node, ast.Call) and isinstance(node.func, ast.Attribute):
             f = p.func_containing(node)
@@ -292,17 +322,26 @@ def r8(p, rep):
             if node.func.attr in UNICODE_DIGIT_TESTS:
                 n += 1
                 rep.violation("C12.R8", f"{where}:{norm(node)}", f"{m.rel}:{node.lineno}", f"`{norm(node)}` {UNICODE_DIGIT_TESTS[node.func.attr]}: a description containing such a character passes the lexer and then fails in int() with ValueError instead of einx SyntaxError (the documented alphabet is [0-9]+)")
-            elif node.func.attr == "isdecimal" or (node.func.attr == "fullmatch" and "number" in norm(node.func.value)):
+            elif node.func.attr == "isdecimal":
                 n += 1
-                ok = True
-                if node.func.attr == "fullmatch":
-                    vals = p.module_var(m, norm(node.func.value)) if isinstance(node.func.value, ast.Name) else []
-                    pat = next((c.value for v in vals for c in ast.walk(v) if isinstance(c, ast.Constant) and isinstance(c.value, str)), None)
-                    ok = pat is not None and re.fullmatch(r"\[0-9\]\+|\[0-9\]\[0-9\]\*|\\d\+", pat) is not None and pat != r"\d+"
-                    detail = f"number tokens match the regex {pat!r}"
-                else:
-                    detail = "str.isdecimal() agrees with int()"
-                rep.add("C12.R8", f"{where}:{norm(node)[:40]}", f"{m.rel}:{node.lineno}", ok, detail if ok else f"number regex {pat!r} admits characters int() may reject (\\d is Unicode-aware)")
+                rep.ok("C12.R8", f"{where}:{norm(node)[:40]}", f"{m.rel}:{node.lineno}", "str.isdecimal() agrees with int()")
+            elif node.func.attr in ("fullmatch", "match", "search"):
+                names = _regex_receivers(p, m, node.func.value, f)
+                pats = {nm: pattern_of(nm) for nm in names}
+                pats = {nm: pt for nm, pt in pats.items() if pt is not None}
+                if not pats:
+                    continue
+                if node.func.attr != "fullmatch":
+                    # a token is tested against the whole alphabet of its kind, not a prefix of it
+                    n += 1
+                    rep.violation("C12.R8", f"{where}:{norm(node)[:40]}:prefix", f"{m.rel}:{node.lineno}", f"`{norm(node)[:60]}` tests the token with .{node.func.attr}(): a token of which only a prefix is a valid name / number (`a-b`, `1x`) is accepted by the lexer and fails later with an internal exception instead of einx SyntaxError")
+                    continue
+                for nm, pat in sorted(pats.items()):
+                    if "number" not in nm and not re.fullmatch(r"\[0-9\]\+|\[0-9\]\[0-9\]\*|\\d[+*]?|\[\\d\][+*]?", pat):
+                        continue
+                    n += 1
+                    ok = re.fullmatch(r"\[0-9\]\+|\[0-9\]\[0-9\]\*", pat) is not None
+                    rep.add("C12.R8", f"{where}:{norm(node)[:40]}" + ("" if isinstance(node.func.value, ast.Name) else f":{nm}"), f"{m.rel}:{node.lineno}", ok, f"number tokens match the regex {pat!r}" if ok else f"number regex {pat!r} admits characters int() may reject (\\d is Unicode-aware)")
     if n == 0:
         raise AnalysisError("unrecognised idiom: the parser has no recognisable number-token test")
 
